@@ -23,7 +23,7 @@ ASSUMPTIONS = ["oracle step limit: a case on which the reference fixpoint gives 
                "the library's marking is exponential on some duplication-heavy grammars: a case that exceeds the "
                "wall-clock watchdog is counted inconclusive (tolerated up to 15 % of the cases; the count is in the evidence), never judged"]
 TIERS = {
-    "quick": {"workers": 8, "random": 60, "products": 6, "word_products": 40, "case_timeout": 12, "inconclusive_tolerance": 0.15},
+    "quick": {"workers": 8, "random": 120, "products": 6, "word_products": 40, "case_timeout": 12, "inconclusive_tolerance": 0.15},
     "thorough": {"workers": 16, "random": 500, "products": 40, "word_products": 300, "case_timeout": 60, "inconclusive_tolerance": 0.10, "pytest": True, "exhaustive": True, "hard_timeout": 3300},
 }
 MIN = {"quick": {"C17.IndexedGrammar.is_empty": 10000, "C17.IndexedGrammar.remove_useless_rules": 100,
@@ -145,11 +145,21 @@ def pre_inter(self, args, kwargs):
         reg = extract.fa(other)
     else:
         return None
+    if self in EXPECT:
+        # a product intersected again: the workload knows the expectation (the word of the grammar is accepted by
+        # every language so far); only exceptions are judged here
+        return "chained"
     return ig_rules(self), reg
 
 
 def post_inter(st, self, args, kwargs, result, exc):
     if st is None:
+        return
+    if st == "chained":
+        core.LOG.count("C17.chained_intersections")
+        if exc is not None:
+            core.report(PROP, "intersection", "exception:" + type(exc).__name__, {"msg": str(exc)[:80]},
+                        ["product_intersected_again"])
         return
     (rules, start), reg = st
     tags = tags_rules(rules)
@@ -280,6 +290,110 @@ def layered_rules(rng):
     return out
 
 
+DETOUR_NAMES = ["A", "B", "C", "D", "X", "Y", "N0", "N1", "Left", "Right", "P", "Q", "U", "V", "B1", "B2"]
+
+
+def detour_rules(rng):
+    """a grammar built around ONE derivation: a walk S = X0 -> X1 -> ... -> Xn -> letter whose steps push an index,
+    pop the top index, or duplicate beside a vanishing T; the X_i are drawn from a small pool WITH reuse, so the same
+    non-terminal is met again on another stack level (recursion through the stack) and the walk is often the only way
+    to a word.  Distractors: pops leading back to an earlier X_i, a non-generating alternative."""
+    pool = ["S"] + rng.sample(DETOUR_NAMES, rng.randint(2, 4))
+    stack = []
+    rules = []
+    cur = "S"
+    used_t = False
+    walk = [cur]
+    pushers = []
+    for _ in range(rng.randint(2, 7)):
+        ch = ["dup"]
+        if len(stack) < 2:
+            ch += ["push", "push"]
+        if stack:
+            ch += ["pop", "pop"]
+        k = rng.choice(ch)
+        nxt = rng.choice(pool)
+        if pushers and rng.random() < 0.35:
+            nxt = pushers[-1]               # back to the non-terminal that pushed, one stack level higher
+        if k == "push":
+            f = rng.choice("fg")
+            stack.append(f)
+            pushers.append(cur)
+            rules.append(("prod", cur, nxt, f))
+            if rng.random() < 0.4:
+                # a second way of consuming the pushed index right away, leading back into the walk
+                rules.append(("cons", f, nxt, rng.choice(walk)))
+        elif k == "pop":
+            rules.append(("cons", stack.pop(), cur, nxt))
+        else:
+            used_t = True
+            rules.append(("dup", cur, nxt, "T") if rng.random() < 0.7 else ("dup", cur, "T", nxt))
+        cur = nxt
+        walk.append(cur)
+    rules.append(("end", cur, rng.choice("ab")))
+    if used_t:
+        rules.append(("end", "T", "epsilon"))
+    for _ in range(rng.choice([0, 0, 1, 1, 2])):
+        r = rng.random()
+        if r < 0.6:
+            rules.append(("cons", rng.choice("fg"), rng.choice(walk), rng.choice(walk)))
+        elif r < 0.8:
+            rules.append(("dup", "Z", "Z", "Z"))
+            rules.append(("cons", rng.choice("fg"), rng.choice(walk), "Z"))
+        else:
+            rules.append(("prod", rng.choice(walk), rng.choice(walk), rng.choice("fg")))
+    out = []
+    for r in rules:
+        if r not in out:
+            out.append(r)
+    rng.shuffle(out)
+    return out
+
+
+def alternatives_rules(rng):
+    """A -> B[f] where the sets already marked for B offer SEVERAL ways of consuming f (B itself through B[f] -> .,
+    {C} through B -> C T with C[f] -> ., {C, E} through B -> C E ...), some of them productive and some not, below a
+    start symbol that needs A: the verdict hinges on the pass in which the production rule is the only one to learn
+    something"""
+    nm = rng.sample(DETOUR_NAMES, 8)
+    A, B, D, Z = nm[0], nm[1], nm[2], "Z"
+    cs = nm[3:6]
+    f = rng.choice("fg")
+    rules = [("end", D, rng.choice("ab")), ("end", "T", "epsilon"), ("prod", A, B, f)]
+    top = rng.random()
+    if top < 0.5:
+        rules.append(("dup", "S", A, "T"))
+    elif top < 0.7:
+        rules.append(("dup", "S", "T", A))
+    elif top < 0.85:
+        rules.append(("dup", "S", A, A))
+    else:
+        rules[2] = ("prod", "S", B, f)
+        A = "S"
+    targets = [D, D, A, Z, B]
+    ident = rng.random()
+    if ident < 0.75:
+        rules.append(("cons", f, B, rng.choice(targets)))
+    for i in range(rng.randint(1, 2)):
+        c = cs[i]
+        if rng.random() < 0.7:
+            rules.append(("dup", B, c, "T") if rng.random() < 0.6 else ("dup", B, "T", c))
+            rules.append(("cons", f, c, rng.choice(targets)))
+        else:
+            e = cs[2]
+            rules.append(("dup", B, c, e))
+            rules.append(("cons", f, c, rng.choice(targets)))
+            rules.append(("cons", f, e, rng.choice(targets)))
+    if any(r[-1] == Z for r in rules):
+        rules.append(("dup", Z, Z, Z))
+    out = []
+    for r in rules:
+        if r not in out:
+            out.append(r)
+    rng.shuffle(out)
+    return out
+
+
 def tolib(rules, optim=7, start="S"):
     from pyformlang.indexed_grammar import (Rules, ConsumptionRule, EndRule, ProductionRule, DuplicationRule,
                                             IndexedGrammar)
@@ -309,7 +423,7 @@ def small_exhaustive():
 def plan(tier, rng, sl, nslices, stats):
     cfg = TIERS[tier]
     for i in range(cfg["random"]):
-        rules = layered_rules(rng) if i % 2 else rand_rules(rng)
+        rules = [rand_rules, layered_rules, detour_rules, alternatives_rules, detour_rules][i % 5](rng)
         yield {"rules": [list(r) for r in rules], "seed": rng.randrange(1 << 30)}
     for _ in range(cfg["products"]):
         fa = gfa.random_case(rng, max_states=2, max_syms=2, kinds=("dfa", "enfa"), vcs=["int", "str"])
@@ -347,7 +461,10 @@ def plan(tier, rng, sl, nslices, stats):
             fa["trans"].append([s0, rng.randrange(2), s0])          # a symbol read on a self loop
             fa["trans"].append([s0, -1, rng.randrange(fa["n"])])    # ... left through an epsilon move
             fa["trans"] = [list(t) for t in {tuple(t) for t in fa["trans"]}]
-        yield {"rules": [list(r) for r in rules], "seed": rng.randrange(1 << 30), "fa": fa, "word": word}
+        cc = {"rules": [list(r) for r in rules], "seed": rng.randrange(1 << 30), "fa": fa, "word": word}
+        if rng.random() < 0.5:
+            cc["fa2"] = gfa.random_case(rng, max_states=2, max_syms=2, kinds=("dfa",), vcs=["int", "str"])
+        yield cc
     if cfg.get("exhaustive"):
         tot = 0
         for i, rules in enumerate(small_exhaustive()):
@@ -452,6 +569,14 @@ def run_case(c, stats):
             ok, prod = call(g.intersection, fa)
             if ok:
                 call(prod.is_empty)
+                if "word" in c and "fa2" in c and optim == 7:
+                    # the product is an indexed grammar like any other: intersected with a second language
+                    fa2 = gfa.build(c["fa2"])
+                    ok, prod2 = call(prod.intersection, fa2)
+                    if ok:
+                        with core.oracle_mode():
+                            EXPECT[prod2] = not (extract.fa(fa).accepts(c["word"]) and extract.fa(fa2).accepts(c["word"]))
+                        call(prod2.is_empty)
             ok, prod = call(g.intersection, Regex("a*"))
             if ok:
                 call(lambda: bool(prod))
